@@ -75,7 +75,9 @@ func readNextPacket(buf *bytes.Buffer) (recoverySetID, packetType, []byte, error
 		return [16]byte{}, packetType{}, nil, err
 	}
 
-	// TODO: Handle overflow.
+	if h.Length-sizeOfPacketHeader() > uint64(buf.Len()) {
+		return [16]byte{}, packetType{}, nil, errors.New("could not read body")
+	}
 	bodyLength := int(h.Length - sizeOfPacketHeader())
 	body := buf.Next(bodyLength)
 	if len(body) != bodyLength {
